@@ -91,8 +91,29 @@ def ctx_filescope_init(e):
     return ("tu", [("decl", INT, [("d", "v", [], ("ie", e), None, None)])])
 
 
+def ctx_label(e):
+    return _fn([("label", "L", ("expr", e)), ("goto", "L")])
+
+
+def ctx_after_case(e):
+    return _fn([("switch", ("id", "x"), ("block", [("case", ("const", "1", "int"), ("expr", e)), ("default", ("expr", e))]))])
+
+
+def ctx_else(e):
+    return _fn([("if", ("id", "a"), ("empty",), ("expr", e))])
+
+
+def ctx_for(e):
+    return _fn([("for", ("e", e), e, None, ("empty",))])
+
+
+def ctx_do(e):
+    return _fn([("do", ("expr", e), e)])
+
+
 EXPR_CONTEXTS = [
     ("statement", ctx_stmt), ("initializer", ctx_init), ("if", ctx_if), ("while", ctx_while), ("switch", ctx_switch),
     ("argument", ctx_arg), ("array_bound", ctx_bound), ("case_label", ctx_case), ("bit_width", ctx_bits),
     ("enumerator", ctx_enum), ("return", ctx_return), ("file_init", ctx_filescope_init),
+    ("after_label", ctx_label), ("after_case", ctx_after_case), ("else_branch", ctx_else), ("for_init_and_cond", ctx_for), ("do_body_and_cond", ctx_do),
 ]  # fmt: skip
